@@ -178,7 +178,10 @@ var glslBackend = textBackend{
 }
 
 var hlslBackend = textBackend{
-	name:    "hlsl",
+	name: "hlsl",
+	cfg: func() wgen.Config {
+		return wgen.Config{Off: wgen.SafeOff("type.array-of-array", "private.array", "fn.extractBits", "fn.insertBits", "uniform.matCx2", "decl.reorder", "type.matCx2", "fn.sign", "read.struct-from-buffer", "fn.asinh", "fn.acosh", "fn.atanh")}
+	},
 	nopt:    func(th bool) int { return len(hlslOptionSets(th)) },
 	optName: func(th bool, i int) string { return hlslOptionSets(th)[i].name },
 	run: func(mod *ir.Module, entry string, rs []resInfo, ng3 [3]uint32, th bool, oi int, trap bool) (tr textRun) {
